@@ -23,7 +23,8 @@ Definition no_collision (P : params) (ops : list op) : Prop :=
 
 (* a headers message is shorter than the in-memory window (2000 < 10000 in the
    code); rollBackToHeight is not an operation peers can cause; the model's
-   height arithmetic is exact below 1000000 headers *)
+   height arithmetic is exact below 1000000 headers; every other operation,
+   a restart (ORestart) included, may occur anywhere *)
 Definition op_ok (P : params) (o : op) : Prop :=
   match o with
   | OHeaders _ _ hs => zlen hs < memCap P
@@ -44,7 +45,7 @@ Proof. unfold hist_nows. by rewrite flat_map_app. Qed.
 Lemma op_ok_wf P ops o : o ∈ ops -> op_ok P o -> wf_op P (U_of P ops) (T_of ops) o.
 Proof.
   intros Hin Hok. apply elem_of_list_split in Hin as (l1 & l2 & ->).
-  destruct o as [p now hs| | | | |]; cbn in *; try done.
+  destruct o as [p now hs| | | | | |]; cbn in *; try done.
   split; [|split; [|done]].
   - unfold T_of. rewrite hist_nows_app. apply elem_of_app. right. cbn. left.
   - apply Forall_forall. intros h Hh. right. rewrite hist_headers_app. apply elem_of_app. right.
@@ -209,12 +210,15 @@ Definition ex_f3 := ex_mk 203 202 2900.
 Definition ex_f4 := ex_mk 204 203 3500.
 Definition ex_now : Z := 100000.
 (* a valid batch; a batch valid only up to its first header; a duplicate; a
-   heavier fork (reorganisation); the checkpointed header *)
+   restart (the peer has to connect again); a heavier fork (reorganisation);
+   the checkpointed header *)
 Definition ex_ops : list op :=
   [ ONewPeer 1 0 10 true;
     OHeaders 1 ex_now [ex_h1; ex_h2];
     OHeaders 1 ex_now [ex_h3; ex_bad4];
     OHeaders 1 ex_now [ex_h1; ex_h2];
+    ORestart;
+    ONewPeer 1 0 10 true;
     OHeaders 1 ex_now [ex_f2; ex_f3];
     OInv 1 ex_now (Some 204);
     OHeaders 1 ex_now [ex_f4];
